@@ -166,11 +166,12 @@ TextAlts ==
      F(<<"DATE_FORMAT", "(", "<Date>", ",", "<Fmt>", ")">>), F(<<"TIME_FORMAT", "(", "<Date>", ",", "<Fmt>", ")">>),
      F(<<"UPPER", "(", ")">>), F(<<"UPPER", "(", "<Text>", ",", "<Text>", ")">>) >>
 
+\* the date / time literals are boundary values of a VALUE SLOT (function x malformed date is one feature + one value)
 DateAlts ==
-  << D(<<"'2024-01-02'">>), F(<<"dt">>), F(<<"tm">>), F(<<"ts">>), F(<<"NULL">>), F(<<"'0000-00-00'">>), F(<<"'9999-12-31'">>),
-     F(<<"'2024-13-45'">>), F(<<"'2024-02-30'">>), F(<<"''">>), F(<<"'x'">>), F(<<"1">>), F(<<"'10:11:12'">>), F(<<"'838:59:59'">>),
-     F(<<"'-838:59:59'">>), F(<<"'2024-01-02 10:11:12'">>), F(<<"'2024-01-02T10:11:12.123456789Z'">>), F(<<"'99999-01-01'">>),
-     F(<<"'-0001-01-01'">>), F(<<"'2024-1-2'">>), F(<<"'24:00:00'">>), F(<<"<Param>">>),
+  << D(<<"'2024-01-02'">>), V(<<"dt">>), V(<<"tm">>), V(<<"ts">>), V(<<"NULL">>), V(<<"'0000-00-00'">>), V(<<"'9999-12-31'">>),
+     V(<<"'2024-13-45'">>), V(<<"'2024-02-30'">>), V(<<"''">>), V(<<"'x'">>), V(<<"1">>), V(<<"'10:11:12'">>), V(<<"'838:59:59'">>),
+     V(<<"'-838:59:59'">>), V(<<"'2024-01-02 10:11:12'">>), V(<<"'2024-01-02T10:11:12.123456789Z'">>), V(<<"'99999-01-01'">>),
+     V(<<"'-0001-01-01'">>), V(<<"'2024-1-2'">>), V(<<"'24:00:00'">>), V(<<"<Param>">>),
      F(<<"NOW", "(", ")">>), F(<<"CURRENT_DATE", "(", ")">>), F(<<"CURRENT_TIMESTAMP">>), F(<<"CURTIME", "(", ")">>),
      F(<<"DATE", "(", "<Date>", ")">>), F(<<"TIME", "(", "<Date>", ")">>), F(<<"TIMESTAMP", "(", "<Date>", ")">>),
      F(<<"DATE_ADD", "(", "<Date>", ",", "<IntArg>", ")">>), F(<<"DATE_SUB", "(", "<Date>", ",", "<IntArg>", ")">>),
